@@ -18,8 +18,9 @@ LEVEL_TEXT = ('Partial. Coq theorems over R: (a) on the kernels regenerated from
               'AL gradient, second-order update): after every outer iteration in which the first-order update runs lam >= 0 componentwise, '
               'kappa componentwise non-decreasing when penalty_scaling >= 1 and kappa >= 0, every normal return passes the termination '
               'test hence is an approximate KKT point in the min form with explicit constants; use_newton_only never returns. '
-              '(c) exact KKT + convex objective + concave constraints => global constrained minimiser (unique if strictly convex), '
-              'abstract first-order form. Not proved: convergence, the approximate version of (c). The model is tied to the code by a '
+              '(c) exact KKT + convex objective + concave constraints => global constrained minimiser (unique if strictly convex), and the '
+              'quantitative version: a tol-KKT point of a mu-strongly convex problem is within (eg + sqrt(eg^2 + 4 mu (S+Vi)))/(2 mu) of the '
+              'minimiser (abstract first-order form). Not proved: convergence. The model is tied to the code by a '
               'trace correspondence with scripted oracles; the conclusions are also evaluated on real end-to-end solves (incl. the '
               'bound-constrained front end) and against an independent active-set enumeration for convex QPs.')
 TECHNIQUE = 'Coq proof (Reals + Coquelicot) over regenerated kernels and a hand state-machine model; vm_compute/PrimFloat trace correspondence'
@@ -154,8 +155,18 @@ def qp_active_set(Q, q, A, b, tol=1e-9):
             if onp.all(A @ x - b >= -tol) and onp.all(lam >= -tol):
                 val = 0.5 * x @ Q @ x + q @ x
                 if best is None or val < best[0] - 1e-12:
-                    best = (val, x, S)
-    return None if best is None else (best[1], best[2])
+                    lfull = onp.zeros(m)
+                    lfull[S] = lam
+                    best = (val, x, S, lfull)
+    return None if best is None else (best[1], best[2], best[3])
+
+
+def near_min_bound(mu, eg, tol, cv, lam, kappa0, lam_star):
+    """C04_approx_KKT_is_near_min with the constants of the termination test: d <= (eg + sqrt(eg^2 + 4 mu (S + Vi))) / (2 mu),
+    S = sum lam_i max(c_i,0) <= sum (tol/(2-sqrt2)) max(kappa0_i c_i, lam_i)/kappa0_i (C04_product_from_min), Vi = sum lam*_i max(-c_i,0)"""
+    S = sum((tol / SQ) * max(k * c, l) / k for c, l, k in zip(cv, lam, kappa0) if c > 0.0)
+    Vi = sum(ls * max(-c, 0.0) for c, ls in zip(cv, lam_star))
+    return (eg + math.sqrt(eg * eg + 4.0 * mu * (S + Vi))) / (2.0 * mu), S, Vi
 
 
 # ============================================================================ L2: end-to-end solves, conclusions of the theorems
@@ -235,11 +246,13 @@ def run_e2e(spec):
                 Q = pr['qp'][0]
                 mu = float(onp.linalg.eigvalsh(Q)[0])
                 dist = float(onp.linalg.norm(onp.array(x) - ref[0]))
-                # distance bound for a tol-KKT point of a mu-strongly convex QP; stated heuristic constant 1e3
-                lim = 1e3 * tol * (1.0 + float(onp.max(obj.kappa / kappa0))) / min(1.0, mu)
-                info.update(dist_to_reference=dist, dist_limit=lim, ref_active=ref[1])
+                # proved distance bound (C04_approx_KKT_is_near_min) with the constants of the termination test
+                cv = [float(a) for a in onp.array(c(jnp.array(x), p))]
+                lim0, S_, Vi_ = near_min_bound(mu, rep['bound'], tol, cv, [float(a) for a in onp.array(obj.lam)], [float(a) for a in onp.array(kappa0)], ref[2])
+                lim = lim0 * (1 + 1e-6) + 1e-13 * (1.0 + float(onp.linalg.norm(ref[0])))
+                info.update(dist_to_reference=dist, dist_limit=lim, ref_active=ref[1], slack_S=S_, weighted_violation=Vi_)
                 if not dist <= lim:
-                    bad.append('returned point differs from the active-set reference minimiser by %r (limit %g)' % (dist, lim))
+                    bad.append('returned point differs from the active-set reference minimiser by %r, more than the proved bound %g for a tol-KKT point (mu=%g)' % (dist, lim, mu))
     return dict(status=status, bad=bad, info=info)
 
 
@@ -333,10 +346,16 @@ def run_bound(spec):
             ref = qp_active_set(Q, q, A, onp.zeros(len(idx)))
             if ref is not None:
                 dist = float(onp.linalg.norm(onp.array(x) - ref[0]))
-                lim = 1e3 * tol * (1.0 + float(onp.max(obj.kappa / obj.constraintKappa))) * float(onp.max(isc)) / min(1.0, float(onp.linalg.eigvalsh(Q)[0]) * float(onp.min(isc)) ** 2)
+                # proved bound in the scaled variables the solver works in (objective x'D^-1 Q D^-1 x / 2, multipliers lam*/scaling)
+                Dm = onp.diag(onp.array(isc) * onp.ones(n))
+                mub = float(onp.linalg.eigvalsh(Dm @ Q @ Dm)[0])
+                xb = onp.array(sc * x)
+                lim0, S_, Vi_ = near_min_bound(mub, rep['bound'], tol, [float(xb[i]) for i in idx], [float(a) for a in onp.array(obj.lam)],
+                                               [float(a) for a in onp.array(obj.constraintKappa)], [float(ref[2][k_] / (onp.array(sc) * onp.ones(n))[i]) for k_, i in enumerate(idx)])
+                lim = float(onp.max(onp.array(isc))) * lim0 * (1 + 1e-6) + 1e-13 * (1.0 + float(onp.linalg.norm(ref[0])))
                 info.update(dist_to_reference=dist, dist_limit=lim)
                 if not dist <= lim:
-                    bad.append('bound-constrained solution differs from the active-set reference by %r (limit %g)' % (dist, lim))
+                    bad.append('bound-constrained solution differs from the active-set reference by %r, more than the proved bound %g' % (dist, lim))
     return dict(status=status, bad=bad, info=info)
 
 
